@@ -36,6 +36,13 @@ def sc_trial(V, table="e", n=2, default="none", molecular=False, with_disp=True,
         from quansino.operations.displacement import Box
 
         mc.add_move(DisplacementMove(labels.copy(), Box(0.2)), name="disp", probability=0.0)
+        if with_disp == "nested":
+            # a composite in which the same two objects recur non-adjacently: (a + b) * 2 = [a, b, a, b]
+            from quansino.mc.criteria import CanonicalCriteria
+
+            a_ = DisplacementMove(labels.copy(), Box(0.2))
+            b_ = DisplacementMove(labels.copy(), Box(0.1))
+            mc.add_move((a_ + b_) * 2, criteria=CanonicalCriteria(), name="nested", probability=0.0)
     dl = {"none": None, "zero": 0, "neg": -1, "five": 5}[default]
     bearers = label_bearers(mc)
     for _, m in bearers:
@@ -121,6 +128,7 @@ def _plan(tier):
     P.append(("trial", dict(table="e2", n=2, default="none", molecular=False, with_disp=False), R))
     P.append(("trial", dict(table="e+e", n=2, default="none", molecular=False, with_disp=True), R))
     P.append(("trial", dict(table="e", n=2, default="none", molecular=False, with_disp=True, check=True), R + ("failed",)))
+    P.append(("trial", dict(table="e", n=2, default="five", molecular=False, with_disp="nested"), R))
     if not q:
         P.append(("trial", dict(table="e", n=3, default="zero", molecular=True, with_disp=True), R))
         P.append(("trial", dict(table="e2", n=3, default="five", molecular=False, with_disp=True), R))
